@@ -106,6 +106,21 @@ theorem roundtrip_expr_in_context (e : Expr) (rest : List Tok)
   have hb := B_le e
   exact hm f (by simp only [fuelFor] at hf; omega)
 
+/-- **With the parser's size check** (`parseExpr`: a parse is accepted iff every tuple expression has
+at most 16 elements, on whichever of the parser's two tuple paths it was built): every expression the
+parser can produce is printed to a text the parser accepts again, and reads back as `regroup e`. -/
+theorem roundtrip_expr_sized (e : Expr) (h : sizeOk e = true) :
+    parseExpr (printE e) = some (regroup e) := by
+  simp [parseExpr, roundtrip_expr_total, sizeOk_regroup, h]
+
+/-- acceptance of a tuple depends only on its number of elements (16 accepted, 17 rejected),
+whatever its first element looks like. -/
+theorem tuple_size_limit (e : Expr) (es : Args) (h : sizeOk e = true) (hs : sizeOkArgs es = true) :
+    (parseExpr (printE (.tuple e es))).isSome = decide (es.len + 1 ≤ 16) := by
+  by_cases hl : es.len + 1 ≤ 16
+  · rw [roundtrip_expr_sized _ (by simp [sizeOk, hl, h, hs])]; simp [hl]
+  · simp [parseExpr, roundtrip_expr_total, sizeOk_regroup, sizeOk, hl]
+
 theorem eval_regroup (I : Interp) (e : Expr) : eval I (regroup e) = eval I e := (eval_rg I e).1
 
 /-- **Formatting never changes the meaning of an expression of the fragment**: the output parses,
